@@ -198,7 +198,7 @@ def main(argv) -> int:
                 chk.merge(job.result())
             except Exception as err:
                 chk.harness_error(f"worker failed: {err!r}")
-    chk.require_min("models_compared", chk.pick(150, 3000))
+    chk.require_min("models_compared", chk.pick(150, 800))
     chk.require_min("smoke_exit_0", 30)
     chk.require_min("smoke_exit_1", 30)
     chk.require_min("recorded_cases_compared", 5)
